@@ -91,12 +91,26 @@ fn run_natural_text(e: &Sexp) -> Result<Sexp, String> {
     })
 }
 
+/// cases of `mu_branches`: the programs of the cluster and, 4 %, programs of the tau* grammar with
+/// variables around the usize boundary of tau*'s global counter (`V18446744073709551615`: p.mu() and
+/// p.tau_star() panic, finding F11; audit 2, B16 / T13)
+fn gen_mu_program(rng: &mut Rng) -> Sexp {
+    if rng.chance(4) {
+        let mut cfg = crate::ext::taustar::TCfg::adversarial(rng);
+        cfg.huge = 25;
+        cfg.max_rules = 3;
+        conv::program(&crate::ext::taustar::program(rng, &cfg))
+    } else {
+        gen_program(rng)
+    }
+}
+
 pub fn ops() -> Vec<Op> {
     vec![
         Op { name: "natural", generate: gen_program, run: run_natural },
         Op { name: "natural_small", generate: gen_small_program, run: run_natural },
         Op { name: "natural_text", generate: gen_program, run: run_natural_text },
         Op { name: "is_regular", generate: gen_program, run: run_is_regular },
-        Op { name: "mu_branches", generate: gen_program, run: run_mu_branches },
+        Op { name: "mu_branches", generate: gen_mu_program, run: run_mu_branches },
     ]
 }
